@@ -151,8 +151,8 @@ func init() {
 						o.MemTableSize = 64 << 10
 						o.ValueThreshold = (15 * o.MemTableSize) / 100 // in-memory mode: values up to the threshold are legal
 						o.managedTxns = mode[0] == 'm'
-					// ~130 commits of ~10 KiB: many flushes, no compactors => never stall on L0
-					o.NumLevelZeroTables, o.NumLevelZeroTablesStall = 1 << 20, 1 << 21
+						// ~130 commits of ~10 KiB: many flushes, no compactors => never stall on L0
+						o.NumLevelZeroTables, o.NumLevelZeroTablesStall = 1<<20, 1<<21
 						if ptr {
 							dir := freshDir(e.j)
 							o.InMemory, o.Dir, o.ValueDir = false, dir, dir
